@@ -637,7 +637,7 @@ func fullRange(ia *ssa.IndexAddr) bool {
 			return
 		}
 		if call, ok := bo.Y.(*ssa.Call); ok {
-			if b, ok := call.Call.Value.(*ssa.Builtin); ok && b.Name() == "len" && call.Call.Args[0] == ia.X {
+			if b, ok := call.Call.Value.(*ssa.Builtin); ok && b.Name() == "len" && sameSlice(call.Call.Args[0], ia.X) {
 				okLen = true
 			}
 		}
@@ -889,4 +889,19 @@ func enumValue(p *ana.Prog, pkgSuffix, name string) string {
 		return "?"
 	}
 	return constExact(pkg.Types.Scope().Lookup(name))
+}
+
+
+// sameSlice: two values that denote the same slice – the same SSA value, loads of one local, or loads of the
+// same field path of one root (x.Items read twice).
+func sameSlice(a, b ssa.Value) bool {
+	if a == b || sameObject(a, b) {
+		return true
+	}
+	ra, pa := rootAndPath(a)
+	rb, pb := rootAndPath(b)
+	if pa == "" || pa != pb {
+		return false
+	}
+	return ra == rb || sameObject(ra, rb)
 }
